@@ -172,10 +172,14 @@ def show(t):
     if c is Sym:
         return esc_sym(t.s)
     if c is Fn:
+        def arg(a):
+            # a negative constant is the unary minus applied to a literal: parenthesise it inside expressions
+            s = show(a)
+            return "(" + s + ")" if s.startswith("-") else s
         if t.op in _PREFIX and len(t.args) == 1:
-            return "(" + _PREFIX[t.op] + show(t.args[0]) + ")"
+            return "(" + _PREFIX[t.op] + arg(t.args[0]) + ")"
         if t.op in _INFIX and len(t.args) == 2:
-            return "(" + show(t.args[0]) + " " + t.op + " " + show(t.args[1]) + ")"
+            return "(" + arg(t.args[0]) + " " + t.op + " " + arg(t.args[1]) + ")"
         return t.op + "(" + ", ".join(show(a) for a in t.args) + ")"
     if c is UFn:
         return "@" + t.name + "(" + ", ".join(show(a) for a in t.args) + ")"
